@@ -505,7 +505,9 @@ def r5(ctx):
 def r2(ctx):
     """the reader's number / unit lexers (C10.R3) are part of the round trip: a token the writer emits must be lexed whole."""
     from .c10 import r3 as c10r3
+    from .c10 import r3b as c10r3b
     c10r3(ctx)
+    c10r3b(ctx)       # includes the exponent form the writer emits for sizes below 1e-4 deg
 
 
 def r6(ctx):
@@ -746,7 +748,7 @@ class _SubCtx:
 
 RULES = [
     RuleDef('R1', 'token-level writer∘reader round trip per class (names, slots, inverse constants)', r1, 21),
-    RuleDef('R2', 'reader lexers: whole-token float(), suffix table, pixel shift (shared with C10.R3)', r2, 5),
+    RuleDef('R2', 'reader lexers: whole-token float(), suffix table, pixel shift (shared with C10.R3/R3b)', r2, 6),
     RuleDef('R3', 'frame tables are mutually inverse', r3, 6),
     RuleDef('R4', 'skip discipline (stated belief / check-then-use)', r4, 8),
     RuleDef('R5', 'include sense survives (sign, {0,1})', r5, 2),
